@@ -11,14 +11,14 @@ Three parties see every op line:
     and demands: every call returns; the pages returned in one pass are exactly the matching pages, each once, in
     ascending / descending (page, subpage) order from the start position wrapping once, then NOT_FOUND; the
     highlighted cells are a real occurrence; forward passes report every non-overlapping occurrence.
-Three deviations are still classified as known findings (known_findings.C17.json), each by a witness condition: C17-D2
-in its 16 bit form (a page number with >= 65536 cached pages, n_subpages wrapped) and C17-D6 (regular expressions only:
-ure_exec forgets an accepting state it has passed when the attempt dies later, "(ab)+" finds nothing in "ababa "), and C17-D7 (a pass that starts at a page with sub-code 0x3F7F: search.c puts
-the forward stop position at (P, 0), the walk starts at the most recently used subpage of P; subpages of P are not
-searched in that pass).
-The findings D1 (ure restart), D3 (sub-page 0 in the
-statistics), D4 (start page skipped), D5 (0x3F7F wildcard) and D2 at 256 pages are repaired in /repo; the oracle has
-no excuse for them any more: if one of those behaviours returns it is a VIOLATION.
+Two deviations are still classified as known findings (known_findings.C17.json), each by a witness condition: C17-D2
+in its 16 bit form (a page number with >= 65536 cached pages, n_subpages wrapped) and - ONLY while translate/gen_search.py
+reads the unrepaired statements from /repo's cache.c and search.c - C17-D7 (a pass that starts at a page with sub-code
+0x3F7F: search.c puts the forward stop position at (P, 0), the walk starts at the most recently used subpage of P;
+subpages of P are not searched in that pass).  Once fixes/C17-turn-3f7f.diff is applied that excuse is off by itself.
+The findings D1 (ure restart), D3 (sub-page 0 in the statistics), D4 (start page skipped), D5 (0x3F7F wildcard), D6 (ure
+accepting state forgotten) and D2 at 256 pages are repaired in /repo; the oracle has no excuse for them any more: if
+one of those behaviours returns it is a VIOLATION.
 """
 import json, os, re, sys, hashlib
 sys.path.insert(0, os.path.join(os.path.dirname(os.path.abspath(__file__)), "..", "lib"))
@@ -57,114 +57,6 @@ def compile_pat(pat, casefold, regexp):
     except re.error:
         return None
 
-# --- emulation of ure_exec, used ONLY to classify a deviation as the known finding C17-D6, never to accept anything.
-# Regular expressions (the generator's subset: literals, escapes, '.', [classes], groups, | * + ?) are run by
-# Brzozowski derivatives: "the DFA has a transition on c" <=> the derivative is not the empty language.
-NULL, EPS = ("null",), ("eps",)
-def r_cat(a, b):
-    if a == NULL or b == NULL: return NULL
-    if a == EPS: return b
-    if b == EPS: return a
-    return ("cat", a, b)
-def r_alt(a, b):
-    if a == NULL: return b
-    if b == NULL: return a
-    if a == b: return a
-    return ("alt", a, b)
-def r_star(a):
-    if a in (NULL, EPS): return EPS
-    if a[0] == "star": return a
-    return ("star", a)
-def r_nullable(r):
-    t = r[0]
-    if t in ("eps", "star"): return True
-    if t in ("null", "chr"): return False
-    if t == "cat": return r_nullable(r[1]) and r_nullable(r[2])
-    return r_nullable(r[1]) or r_nullable(r[2])
-def r_deriv(r, c):
-    t = r[0]
-    if t in ("eps", "null"): return NULL
-    if t == "chr": return EPS if r[1](c) else NULL
-    if t == "alt": return r_alt(r_deriv(r[1], c), r_deriv(r[2], c))
-    if t == "star": return r_cat(r_deriv(r[1], c), r)
-    d = r_cat(r_deriv(r[1], c), r[2])
-    return r_alt(d, r_deriv(r[2], c)) if r_nullable(r[1]) else d
-def r_parse(pat, literal, casefold):
-    fold = (lambda ch: ch.lower()) if casefold else (lambda ch: ch)
-    def lit(ch):
-        ch = fold(ch)
-        return ("chr", lambda c, ch=ch: c == ch)
-    if literal:
-        r = EPS
-        for ch in pat: r = r_cat(r, lit(ch))
-        return r
-    pos = [0]
-    def peek(): return pat[pos[0]] if pos[0] < len(pat) else None
-    def alt():
-        r = cat()
-        while peek() == "|":
-            pos[0] += 1; r = r_alt(r, cat())
-        return r
-    def cat():
-        r = EPS
-        while peek() is not None and peek() not in "|)":
-            r = r_cat(r, post())
-        return r
-    def post():
-        a = atom()
-        while peek() is not None and peek() in "*+?":
-            o = peek(); pos[0] += 1
-            a = r_star(a) if o == "*" else (r_cat(a, r_star(a)) if o == "+" else r_alt(a, EPS))
-        return a
-    def atom():
-        ch = peek(); pos[0] += 1
-        if ch == "(":
-            r = alt(); pos[0] += 1; return r
-        if ch == ".": return ("chr", lambda c: c not in "\n\r\u2028\u2029")
-        if ch == "\\":
-            ch = peek(); pos[0] += 1; return lit(ch)
-        if ch == "[":
-            neg = peek() == "^"
-            if neg: pos[0] += 1
-            items = []
-            while peek() != "]":
-                a = peek(); pos[0] += 1
-                if peek() == "-" and pos[0] + 1 < len(pat) and pat[pos[0] + 1] != "]":
-                    b = pat[pos[0] + 1]; pos[0] += 2; items.append((a, b))
-                else: items.append((a, a))
-            pos[0] += 1
-            def f(c, items=items, neg=neg):
-                hit = any(fold(a) <= c <= fold(b) for a, b in items) or any(a <= c <= b for a, b in items) if casefold else any(a <= c <= b for a, b in items)
-                return (not hit and c not in "\n\r") if neg else hit
-            return ("chr", f)
-        return lit(ch)
-    return alt()
-
-def ure_now(rq, casefold, text, pos=0):
-    """what ure_exec does since 8b7ac93: on a mismatch in a non-accepting state the DFA restarts one character after
-    the START of the failed attempt - but an accepting state the attempt had passed is forgotten (C17-D6).
-    -> (span | None, lost) with lost = some abandoned attempt had passed an accepting state"""
-    n, i = len(text), pos
-    st, ms, me, passed, lost = rq, None, None, False, False
-    while i < n:
-        c = text[i].lower() if casefold else text[i]
-        d = r_deriv(st, c)
-        if d != NULL:
-            if ms is None: ms = i
-            me, st = i + 1, d
-            i += 1
-            if r_nullable(st): passed = True
-            if i == n:
-                if r_nullable(st): return (ms, me), lost
-                return None, lost or passed
-        elif r_nullable(st):
-            return ((ms, me) if ms is not None else None), lost
-        else:
-            lost = lost or passed
-            i = ms + 1 if ms is not None else i + 1
-            st, ms, me, passed = rq, None, None, False
-    return None, lost
-
 def prev_pos(pgno, subno):
     """vbi_search_new documentation: (pgno, subno) is the last page a backward search visits, so the backward pass
     starts just below it"""
@@ -198,7 +90,19 @@ class Pass:
         self.hits, self.mutated, self.snapshot = [], False, None
         self.alt_start = None
 
-KNOWN_CAUSES = ("nsub-wrap", "ure-accept-lost", "turn-on-3f7f")
+KNOWN_CAUSES = ("nsub-wrap", "turn-on-3f7f")
+
+def d7_unrepaired():
+    """True while /repo has finding C17-D7 (translate/gen_search.py reads the two statements from the source text).
+    Repaired, half-applied or unrecognised source: no excuse - a deviation with that shape is a VIOLATION."""
+    sys.path.insert(0, os.path.join(verif.VERIF, "translate"))
+    import gen_search
+    try:
+        start_exact, turn_keeps = gen_search.flags(verif.REPO)
+    except SystemExit:
+        return False
+    return not start_exact and not turn_keeps
+
 
 class Judge:
     """runs over one case; `problem` = first unexplained discrepancy, `known` = first explained one"""
@@ -208,6 +112,7 @@ class Judge:
         self.dump, self.dirty = None, True
         self.srch, self.cur, self.cur_start = None, None, None
         self.stats = {"hits": 0, "passes": 0, "notfound": 0}
+        self.d7 = d7_unrepaired()
 
     def bad(self, what):
         if self.problem is None: self.problem = what
@@ -241,15 +146,12 @@ class Judge:
         p, s = k
         subs = [e[0] for e in dump.chain.get(p, [])]
         if len(subs) >= 65536: return "nsub-wrap"
-        # C17-D7: the pass starts at a page P.3F7F (direction changed there / stop position left there): search.c and
-        # the start look-up of the walk take that sub-code for VBI_ANY_SUBNO - the forward stop position becomes
-        # (P, 0) and cuts the other subpages of P off the pass; the walk starts at the most recently used subpage of
-        # P instead of P.3F7F.  Only subpages of P itself can be lost that way.
-        if ps.start[1] == ANY and p == ps.start[0]: return "turn-on-3f7f"
-        if self.srch["rq"] is not None:
-            f, h = dump.pages()[k]
-            span, lost = ure_now(self.srch["rq"], self.srch["casefold"], haystack(self.tab[h])[0])
-            if span is None and lost: return "ure-accept-lost"
+        # C17-D7 (only while translate/gen_search.py finds the unrepaired statements in /repo): the pass starts at a
+        # page P.3F7F (direction changed there / stop position left there): search.c and the start look-up of the
+        # walk take that sub-code for VBI_ANY_SUBNO - the forward stop position becomes (P, 0) and cuts the other
+        # subpages of P off the pass; the walk starts at the most recently used subpage of P instead of P.3F7F.
+        # Only subpages of P itself can be lost that way.
+        if self.d7 and ps.start[1] == ANY and p == ps.start[0]: return "turn-on-3f7f"
         return None
 
     @staticmethod
@@ -296,7 +198,7 @@ class Judge:
         if not ps.fresh and ps.start in exp:
             optional.add(ps.start)     # direction change on a page: whether it is reported again depends on the cursor
         probs = self.compare(ps, ps.start, exp, act, complete, optional)
-        if probs and ps.alt_start is not None:
+        if probs and self.d7 and ps.alt_start is not None:
             # C17-D7: a fresh forward pass after the direction was changed on a page P.3F7F starts at (P, 0) in the
             # real code (0x3F7F taken for VBI_ANY_SUBNO); explained only if the pass is exact from THAT position
             if not self.compare(ps, ps.alt_start, self.expected(keys, ps.alt_start, ps.dir), act, complete, set()):
@@ -314,20 +216,7 @@ class Judge:
             for k in act:
                 n_act = sum(1 for kk, _ in ps.hits if kk == k)
                 if k in m and n_act != len(m[k]):
-                    c = None
-                    if self.srch["rq"] is not None:
-                        f, h = dump.pages()[k]
-                        t = haystack(self.tab[h])[0]
-                        n, pos, lost = 0, 0, False
-                        while True:
-                            q, l = ure_now(self.srch["rq"], self.srch["casefold"], t, pos)
-                            lost = lost or l
-                            if q is None: break
-                            n += 1; pos = q[1]
-                        if n == n_act and lost: c = "ure-accept-lost"
-                    w = "page %x.%x: %d occurrences reported, text has %d" % (k + (n_act, len(m[k])))
-                    if c: self.explained(c, w)
-                    else: self.bad("occurrences: " + w)
+                    self.bad("occurrences: page %x.%x: %d occurrences reported, text has %d" % (k + (n_act, len(m[k]))))
 
     # -- one op -------------------------------------------------------------------------------------------
     def op(self, line, o):
@@ -361,9 +250,7 @@ class Judge:
             want = "ok new stop=%d.%d,%d.%d" % (stop0 + stop1)
             if o != want: self.bad("stop-position: vbi_search_new says %s, documentation gives %s" % (o, want))
             if rx is None: return
-            try: rq = r_parse(pat, not rg, cf)
-            except (IndexError, TypeError): rq = None
-            self.srch = {"pat": pat, "casefold": cf, "regexp": rg, "rx": rx, "rq": rq, "stop0": stop0, "stop1": stop1}
+            self.srch = {"pat": pat, "casefold": cf, "regexp": rg, "rx": rx, "stop0": stop0, "stop1": stop1}
             self.cur_start = None
         elif t[0] == "endsearch":
             self.close_pass(False); self.srch = None
